@@ -533,6 +533,67 @@ def _mk_os_wrapper(shim, name, orig, cls, kind):
     return w
 
 
+class _WProxy(object):
+    """a file object opened for writing inside the sandbox: what is written
+    is held back until flush()/close(), which is then ONE traced 'fwrite'
+    operation - the point at which the kernel's verdict on buffered data
+    (ENOSPC, EDQUOT, EFBIG, EIO) reaches the program, and the point at which
+    a fault plan can deliver one"""
+
+    def __init__(self, sh, real, path):
+        self.__dict__.update(_sh=sh, _real=real, _path=path, _buf=[])
+
+    def write(self, data):
+        self._buf.append(data)
+        return len(data)
+
+    def writelines(self, lines):
+        for x in lines:
+            self.write(x)
+
+    def _commit(self):
+        if not self._buf:
+            return
+        buf, self._buf[:] = list(self._buf), []
+        real = self._real
+
+        def do(*_a, **_k):
+            for x in buf:
+                real.write(x)
+            real.flush()
+        sh = self._sh
+        if sh.inside:
+            return do()
+        sh.inside = True
+        try:
+            return sh._event('fwrite', do, 'M', 'p', (self._path,), {},
+                             [self._path])
+        finally:
+            sh.inside = False
+
+    def flush(self):
+        self._commit()
+
+    def close(self):
+        try:
+            self._commit()
+        finally:
+            self._real.close()
+
+    def __enter__(self):
+        return self
+
+    def __exit__(self, *exc):
+        self.close()
+        return False
+
+    def __getattr__(self, name):
+        return getattr(self._real, name)
+
+    def __iter__(self):
+        return iter(self._real)
+
+
 def install(root, mounts, uid, plan, logfd):
     """Install the shim in this process.  Irreversible (meant for a child)."""
     global _shim
@@ -561,10 +622,19 @@ def install(root, mounts, uid, plan, logfd):
     _O['bopen'] = borig
 
     def bopen(file, mode='r', *a, **kw):
-        if sh.inside or isinstance(file, int):
+        if sh.inside:
             return borig(file, mode, *a, **kw)
         m = mode if isinstance(mode, str) else 'r'
         cls = 'M' if any(c in m for c in 'wax+') else 'R'
+        if isinstance(file, int):
+            # os.fdopen / open(fd): writes through the file object happen in
+            # C, out of reach of the os.write wrapper - hand out a proxy whose
+            # flush/close is a traced (and faultable) operation
+            ent = sh.fds.get(file)
+            f = borig(file, mode, *a, **kw)
+            if cls == 'M' and ent and ent[1] and sh._under(ent[0], sh.root):
+                return _WProxy(sh, f, ent[0])
+            return f
         sh.inside = True
         try:
             p = sh._abs(file)
@@ -573,10 +643,13 @@ def install(root, mounts, uid, plan, logfd):
                     return borig(file, mode, *a, **kw)
             if cls == 'R' and not sh.trace_reads:
                 return borig(file, mode, *a, **kw)
-            return sh._event('bopen', borig, cls, 'bopen',
-                             (file, mode) + a, kw, [p])
+            f = sh._event('bopen', borig, cls, 'bopen',
+                          (file, mode) + a, kw, [p])
         finally:
             sh.inside = False
+        if cls == 'M' and not any(c in m for c in 'r+'):
+            return _WProxy(sh, f, p)
+        return f
     bopen.__wrapped__ = borig
     builtins.open = bopen
     io.open = bopen
